@@ -694,7 +694,7 @@ def op_valid_for(op, n):
   return True
 
 
-def run_one(rng, case, stats, rec, log):
+def run_one(rng, case, stats, rec, log, ctx=None):
   if case is None:
     knobs = gen_knobs(rng)
   else:
